@@ -552,15 +552,26 @@ def eval_structured_merger(ctx, decomps):
                 if rep["cover"] != "1" or (not is_point and rep["once"] != "1") or int(rep["n"]) != n:
                     ctx.inconsistent(case, {k: rep[k] for k in ("cover", "once", "n")}, "theorem C06_structured_index")
         else:
+            # which piece's value survives at a shared point is unspecified ("uses the data from only one of the
+            # pieces"): the merged value must be the value of SOME piece covering that point
+            cand = [set() for _ in range(n)]
+            for p_ids, p_vals in zip(ids, vals):
+                for g, x in zip(p_ids, p_vals):
+                    cand[g].add(x)
             arrs = [np.array(v, dtype=np.int64) for v in vals]
             try:
                 out = [int(x) for x in run_merger(decomp, True, arrs)]
+                bad = [g for g in range(n) if g >= len(out) or out[g] not in cand[g]] or (len(out) != n)
             except Exception as e:  # noqa: BLE001
-                out = f"{type(e).__name__}: {e}"
+                out, bad = f"{type(e).__name__}: {e}", True
+            if bad:
+                ctx.violation(case, {"merged": out, "bad_positions": bad}, "every merged point value comes from a piece "
+                              "covering that point", cls=None,
+                              what="StructuredFieldMerger: multi-valued point data merged to a value of no covering piece")
             if rep is not None and rep.get("hyp") == "1":
                 model = [int(x) for x in rep["model"].split(",")]
-                if model != out:
-                    ctx.mismatch(case, out, model, what="StructuredFieldMerger writer order on multi-valued point data")
+                if len(model) != n or any(model[g] not in cand[g] for g in range(n)):
+                    ctx.inconsistent(case, {"model_merged": model}, "values of covering pieces")
             elif rep is not None:
                 ctx.inconsistent(case, str(rep), "hyp=1")
 
@@ -661,7 +672,8 @@ def write_structured_case(d, case):
                  f'{"".join(piece_lines)}</P{grid}>\n</VTKFile>\n')
     paths.append(ppath)
     ext = [[v for k in range(3) for v in (b[k] + shift[k], e[k] + shift[k])] for b, e in plist]
-    ids = {"point": [_grid_ids(n3, b, e, True) for b, e in plist], "cell": [_grid_ids(n3, b, e, False) for b, e in plist]}
+    ids = {"point": [_grid_ids(n3, b, e, True) for b, e in plist], "cell": [_grid_ids(n3, b, e, False) for b, e in plist],
+           "blocks": plist}
     return ppath, wpath, paths, ext, ids
 
 
@@ -729,13 +741,14 @@ def eval_structured_file(ctx, cases, tmpdir):
                 pc = canon(meshgen.from_fc(par))
                 sc = canon(meshgen.from_fc(seq))
                 verdict = comparator_verdict(par, seq)
+                par_points = [[meshgen.f2u(float(c)) for c in p] for p in np.asarray(par.domain.points)]
                 fa = {f.name: np.asarray(f.values) for f in par}
                 fb = {f.name: np.asarray(f.values) for f in seq}
                 fields_equal = (sorted(fa) == sorted(fb) and
                                 all(fa[n].dtype == fb[n].dtype and np.array_equal(fa[n], fb[n]) for n in fa))
             err = None
         except Exception as e:  # noqa: BLE001
-            pc = sc = verdict = None
+            pc = sc = verdict = par_points = None
             fields_equal = False
             err = f"{type(e).__name__}: {e}"
         for p in paths:
@@ -767,8 +780,31 @@ def eval_structured_file(ctx, cases, tmpdir):
                          " ".join(" ".join(str(x) for x in e) for e in ext) + " " +
                          " ".join(" ".join([str(len(v))] + [str(x) for x in v]) for v in ids[kind]))
             meta.append((case, kind))
+        if case["fmt"] == "vtr":
+            # model of PVTRReader._make_structured_mesh (reproduces findings F14/F15): ordinates of the merged grid
+            toks = []
+            for b, e in ids["blocks"]:
+                for k in range(3):
+                    po = case["ordinates"][k][b[k]:e[k] + 1]
+                    toks += [str(len(po))] + [str(meshgen.f2u(x)) for x in po]
+            lines.append(f"c06pr {npieces} " + " ".join(" ".join(str(x) for x in e) for e in ext) + " " + " ".join(toks))
+            meta.append((case, ("ordinates", err, par_points)))
     replies = ctx.lean(lines) if ctx.driver_ok else []
     for (case, kind), rep in zip(meta, replies):
+        if isinstance(kind, tuple):
+            _, ierr, ipoints = kind
+            if "model" not in rep:
+                ctx.inconsistent(case, str(rep), "bad-op")
+            elif rep["model"] == "E":
+                if ierr is None:
+                    ctx.mismatch(case, "impl reads the file", "model: PVTRReader raises", what="pvtr ordinates: impl vs model")
+            else:
+                o = [[int(x) for x in part.split(",")] for part in rep["model"].split("|")]
+                mpoints = [[x, y, z] for z in o[2] for y in o[1] for x in o[0]]
+                if ierr is not None or mpoints != ipoints:
+                    ctx.mismatch(case, ierr or "points differ from the model's ordinates", {"model_ordinates": rep["model"][:300]},
+                                 what="pvtr ordinates: impl vs model")
+            continue
         if "model" not in rep:
             ctx.inconsistent(case, str(rep), "bad-op")
             continue
